@@ -357,6 +357,25 @@ def c20(tier, seed):
     return res.finish()
 
 
+def c22(tier, seed):
+    res = Result("C22", tier, seed)
+    core.build()
+    path, g, n = core.gen_transitions("ModeCompat.cfg", {}, module="ModeCompat")
+    res.add_mc("ModeCompat", g)
+    res.extra["emitted_combinations"] = n
+    nrep = 2 if tier == "quick" else 12
+    shards = [["@replay", "%mod=ModeCompatTrace", "-in", path, "-mode", "compat", "-seed", str(seed * 100 + i)] for i in range(nrep)]
+    rs = core.drive_and_validate(res, shards, core.dev_set(), "opening with another index mode was not refused (or changed the directory), or a RAM-mode switch changed the contents",
+                                 "every (creating mode, directory state, reopen mode) combination x FileIO/MMap x several generated contents")
+    res.cov["samples"] = core.sample_events(rs[0]["trace"], 6)
+    res.cov["exhaustive"] = True
+    res.cov["distinct_nontrivial"] = n
+    res.cov["rule"] = ("all 54 (creating mode, state in {empty, fresh, written, merged, crashed mid-commit, crashed mid-rotation}, reopen mode) combinations "
+                       "are emitted by TLC and executed with both RWModes; TLC judges refusal + unchanged directory digest, or success + equal observation digest")
+    res.assumptions += ["digests (sha1 of the directory tree / of the full observation) are computed by the replayer; their equality is judged by TLC"]
+    return res.finish()
+
+
 def c15(tier, seed):
     res = Result("C15", tier, seed)
     core.build()
@@ -375,7 +394,7 @@ def c15(tier, seed):
     return res.finish()
 
 
-CHECKS = {"C20": c20, "C03": c03, "C19": c19, "C04": c04, "C10": c10, "C11": c11, "C16": c16, "C09": c09, "C15": c15, "C01": c01, "C05": c05, "C06": c06, "C07": c07, "C08": c08, "C12": c12, "C13": c13}
+CHECKS = {"C22": c22, "C20": c20, "C03": c03, "C19": c19, "C04": c04, "C10": c10, "C11": c11, "C16": c16, "C09": c09, "C15": c15, "C01": c01, "C05": c05, "C06": c06, "C07": c07, "C08": c08, "C12": c12, "C13": c13}
 
 
 def main(argv):
